@@ -41,9 +41,9 @@ func checkC37(c *Check) {
 	}
 	if ir := r.ir(P + "AddAckRange"); ir != nil {
 		t := flatText(irText(ir))
-		insert := strings.Contains(t, "assign $ := lit:ackRange{ackFrom:val,ackTo:val2,next:$}\nif !($ != nil)\nassign item.firstRange = $\nelse\nassign $.next = $\nreturn \n")
+		insert := strings.Contains(t, "assign $ := lit:ackRange{ackFrom:val,ackTo:val2,next:$}\nif ($ != nil)\nassign $.next = $\nelse\nassign item.firstRange = $\nreturn \n")
 		merge := strings.Contains(t, "assign $.ackFrom = min($.ackFrom, val)\nassign $.ackTo = max($.ackTo, val2)\nreturn \n")
-		unlink := strings.Contains(t, "assign val = min($.ackFrom, val)\nif !($ != nil)\nassign item.firstRange = $.next\nelse\nassign $.next = $.next\nassign $ = $.next\n")
+		unlink := strings.Contains(t, "assign val = min($.ackFrom, val)\nif ($ != nil)\nassign $.next = $.next\nelse\nassign item.firstRange = $.next\nassign $ = $.next\n")
 		absorb := strings.Contains(t, "loop for over= count=false cond=and((item.firstRange != nil),(item.firstRange.ackFrom <= item.ackPrefix))\nassign item.ackPrefix = max(item.ackPrefix, (item.firstRange.ackTo + #1))\nassign item.firstRange = item.firstRange.next\n")
 		// every advance of the prefix is followed, in the same block, by the loop that absorbs *all* leading ranges the
 		// new prefix reaches (one range absorbed by an `if` leaves later ranges at or below the prefix)
